@@ -52,6 +52,7 @@ class Outcome:
         self.bounded = []         # labelled bounded / by-text parts (not counted)
         self.violations = []      # (key, replay path, witness found)
         self.known_hits = []
+        self.known_counted = 0   # known-finding failures that had been counted as obligations
         self.lines = []
 
     def emit(self, line):
@@ -60,7 +61,7 @@ class Outcome:
 
     def write_evidence(self):
         os.makedirs(EVIDENCE_DIR, exist_ok=True)
-        nknown = len(self.known_hits)
+        nknown = getattr(self, 'known_counted', 0)
         cov = {
             'obligations': self.obligations - nknown,
             'discharged': self.discharged,
